@@ -87,6 +87,21 @@ def repeated(h, rng):
     return h2
 
 
+def nested_diamonds(k, rng=None):
+    """m0 <- (l1, r1) <- m1 <- (l2, r2) <- m2 ...: what a project gets after merging feature branches one after the other.
+    Acyclic, 3k+1 revisions, but 2^k paths from the head to the base: a traversal that forgets what it has seen does not
+    come back"""
+    hist = [{"id": "m000", "down": [], "deps": [], "labels": []}]
+    for i in range(1, k + 1):
+        p = "m%03d" % (i - 1)
+        hist.append({"id": "l%03d" % i, "down": [p], "deps": [], "labels": []})
+        hist.append({"id": "r%03d" % i, "down": [p], "deps": [], "labels": []})
+        hist.append({"id": "m%03d" % i, "down": ["l%03d" % i, "r%03d" % i], "deps": [], "labels": []})
+    if rng is not None:
+        rng.shuffle(hist)
+    return hist
+
+
 def malformed(rng, n):
     """a loadable-looking history with one defect that is not a cycle: illegal character in an id,
     a branch label used twice / equal to a revision id, a dangling down-revision or dependency.  The implementation must answer with some error or a consistent map; the model
@@ -120,6 +135,8 @@ def malformed(rng, n):
 
 def histories(ctx, rng):
     yield "empty", []
+    for k in ((30, 45) if not ctx.thorough else (24, 30, 45, 60)):
+        yield "nested-diamonds-%d" % k, nested_diamonds(k, rng)
     for _ in range(3000 if ctx.thorough else 300):
         kind, h = malformed(rng, rng.randint(1, 7))
         yield "malformed:" + kind, h
